@@ -175,6 +175,71 @@ def trace_pair(args):
     return a, b
 
 
+COMMUTATIVE = {'add', 'mul', 'xor', 'or', 'and'}
+HINTED = {'tobinary', 'iszero'}
+
+
+def dag_signature(text):
+    """Structural signature of a trace: the set of constraint-DAG nodes (hash-consed; operands of
+    commutative ops sorted; results of hint-bearing ops keep one identity per occurrence, numbered
+    per structural key in order of appearance, because two decompositions of one value are
+    independent existentials) plus the tuple of returned values.  Two traces with equal signatures
+    emit the same conjunction of constraints up to reordering / duplication of deterministic calls."""
+    h = {}
+    occ = {}
+    nodes = set()
+    ret = None
+
+    def H(*parts):
+        return hashlib.sha1(repr(parts).encode()).hexdigest()[:20]
+
+    def val(tok):
+        if tok.startswith('c:'):
+            return tok
+        if tok not in h:
+            h[tok] = 'in:' + tok          # an input: same numbering on both sides
+        return h[tok]
+    for line in text.split('\n'):
+        if not line:
+            continue
+        toks = line.split(' ')
+        if toks[0] == 'ret':
+            ret = tuple(val(t) for t in toks[1:])
+        elif toks[0] in ('assertbool', 'asserteq', 'assertdiff', 'assertle', 'markboolean'):
+            args = [val(t) for t in toks[1:]]
+            if toks[0] == 'asserteq':
+                args.sort()
+            nodes.add(H(toks[0], *args))
+        elif toks[0] in ('error', 'panic'):
+            nodes.add(H(line))
+        elif len(toks) >= 3 and toks[1] == '=':
+            lhs, op, rest = toks[0], toks[2], toks[3:]
+            if op == 'call':
+                name = rest[0]
+                bar = rest.index('|')
+                key = H('call', name, tuple(rest[1:bar]), tuple(val(t) for t in rest[bar + 1:]))
+            else:
+                args = [val(t) for t in rest]
+                if op in COMMUTATIVE:
+                    args.sort()
+                key = H(op, *args)
+                if op in HINTED or op.startswith('hint'):
+                    k = occ.get(key, 0)
+                    occ[key] = k + 1
+                    key = H(key, 'occurrence', k)
+            nodes.add(key)
+            if '+' in lhs:
+                base, n = lhs[1:].split('+')
+                nodes.add(H(key, 'width', n))
+                for i in range(int(n)):
+                    h['v%d' % (int(base) + i)] = H(key, i)
+            else:
+                h[lhs] = key
+        else:
+            nodes.add(H('unparsed', line))
+    return nodes, ret
+
+
 def trace_tie(ctx, targets):
     """targets: list of argument lists for `trace`.  Returns list of mismatches (dicts)."""
     from concurrent.futures import ThreadPoolExecutor
@@ -196,6 +261,11 @@ def trace_tie(ctx, targets):
             lines += a.stdout.count('\n')
             if a.stdout == b.stdout:
                 ctx.oblige(f'T-trace {name}', True, f'{a.stdout.count(chr(10))} lines, sha256 {hashlib.sha256(a.stdout.encode()).hexdigest()[:16]}')
+                continue
+            if dag_signature(a.stdout) == dag_signature(b.stdout):
+                # secondary structural tie: same constraint DAG, different order of independent calls
+                ctx.oblige(f'T-trace {name}', True, 'texts differ but the constraint DAGs are equal (reordering/duplication of independent calls; hint-bearing wires never merged)')
+                ctx.extra['trace_ties_modulo_reordering'] = ctx.extra.get('trace_ties_modulo_reordering', 0) + 1
                 continue
             la, lb = a.stdout.split('\n'), b.stdout.split('\n')
             k = next((i for i, (x, y) in enumerate(zip(la, lb)) if x != y), min(len(la), len(lb)))
